@@ -52,6 +52,28 @@ def gen(rng, tier):
                 if rng.chance(1, 3):
                     y[k] = perturb(rng, ty, x[k], tol if tol > 0 else e)
             cases.append(dict(op="beq", ty=ty, fam="bi", style="-", dims=[ulps], nums=x + y + [tol, rel], kind="bop"))
+        # every component equal, but not all through the same branch of the notion: one (a zero against a value far
+        # below the tolerance) only absolutely, another (a large value off by 3 ulps / by a relative 1e-4) only
+        # relatively or in ulps - the conjunction of the component verdicts is true
+        for i in range(40 if tier == "quick" else 2000):
+            x = [0.0, 0.0, 0.0, 0.0]
+            k, j = rng.choice([(0, 1), (1, 0), (0, 3), (3, 2), (1, 3), (3, 0)])
+            big = rng.choice([0.75, 0.5, 0.625, 0.875])
+            x[j] = big
+            free = [t for t in range(3) if t not in (k, j)]
+            if j < 3:
+                x[free[0] if free else 2] = 1.0 - big        # keep b + d + u = 1 (the comparison does not need it)
+            else:
+                x[free[0]] = 1.0
+            y = list(x)
+            y[k] = num.rnd(ty, e / 128)
+            if i % 2 == 0:
+                y[j] = num.next_up(ty, big, rng.choice([3, -3]))
+                rel = num.rnd(ty, e)
+            else:
+                y[j] = num.rnd(ty, big * (1.0 + 1e-4))
+                rel = num.rnd(ty, 1e-3)
+            cases.append(dict(op="beq", ty=ty, fam="bi", style="-", dims=[4], nums=x + y + [e, rel], kind="bop"))
         sizes = [("arr", n) for n in (1, 2, 3, 4, 5, 7)] + [("marr", n) for n in (1, 2, 3, 4, 5, 7)] + [("marrd", n) for n in (1, 2, 3, 4, 5, 7)] + \
                 [("marr2", 4), ("marr2", 6), ("marrd2", 4), ("marrd2", 6), ("marrd3", 8)]
         for fam, n in sizes:
